@@ -608,4 +608,77 @@ theorem binopInplace_ok (f : V → V → V) (a b r : KV V)
         obtain ⟨h1, h2⟩ := itemsSortedStrict_ok b (keys a) nv hv
         exact ⟨nv, rs, h1, h2, (by intro e; subst e; simp [nonEmpty] at hne), hf, h.symm⟩
 
+/-! ### full reductions are symmetric functions of the values -/
+
+theorem flatAll_perm {kv' kv : KV (List Num)} (h : kv'.Perm kv) : (flatAll kv').Perm (flatAll kv) := by
+  induction h with
+  | nil => exact List.Perm.refl _
+  | cons x _ ih => exact List.Perm.append_left _ ih
+  | swap x y l =>
+    simp only [flatAll]
+    rw [← List.append_assoc, ← List.append_assoc]
+    exact List.Perm.append_right _ List.perm_append_comm
+  | trans _ _ ih1 ih2 => exact ih1.trans ih2
+
+theorem hasNan_perm {l' l : List Num} (h : l'.Perm l) : hasNan l' = hasNan l := by
+  induction h with
+  | nil => rfl
+  | cons x _ ih => cases x <;> simp [hasNan, ih]
+  | swap x y l => cases x <;> cases y <;> simp [hasNan]
+  | trans _ _ ih1 ih2 => exact ih1.trans ih2
+
+theorem nanSum_perm {l' l : List Num} (h : l'.Perm l) : nanSum l' = nanSum l := by
+  induction h with
+  | nil => rfl
+  | cons x _ ih => cases x <;> simp [nanSum, ih]
+  | swap x y l => cases x <;> cases y <;> simp [nanSum] <;> omega
+  | trans _ _ ih1 ih2 => exact ih1.trans ih2
+
+theorem nanProd_perm {l' l : List Num} (h : l'.Perm l) : nanProd l' = nanProd l := by
+  induction h with
+  | nil => rfl
+  | cons x _ ih => cases x <;> simp [nanProd, ih]
+  | swap x y l => cases x <;> cases y <;> simp [nanProd, Int.mul_left_comm]
+  | trans _ _ ih1 ih2 => exact ih1.trans ih2
+
+theorem nanCount_perm {l' l : List Num} (h : l'.Perm l) : nanCount l' = nanCount l := by
+  induction h with
+  | nil => rfl
+  | cons x _ ih => cases x <;> simp [nanCount, ih]
+  | swap x y l => cases x <;> cases y <;> simp [nanCount]
+  | trans _ _ ih1 ih2 => exact ih1.trans ih2
+
+theorem nanMax_perm {l' l : List Num} (h : l'.Perm l) : nanMax l' = nanMax l := by
+  induction h with
+  | nil => rfl
+  | cons x _ ih => cases x <;> simp [nanMax, ih]
+  | swap x y l =>
+    cases x <;> cases y <;> simp only [nanMax]
+    cases nanMax l with
+    | none => simp [Int.max_comm]
+    | some z => simp only [Option.some.injEq]; omega
+  | trans _ _ ih1 ih2 => exact ih1.trans ih2
+
+theorem nanMin_perm {l' l : List Num} (h : l'.Perm l) : nanMin l' = nanMin l := by
+  induction h with
+  | nil => rfl
+  | cons x _ ih => cases x <;> simp [nanMin, ih]
+  | swap x y l =>
+    cases x <;> cases y <;> simp only [nanMin]
+    cases nanMin l with
+    | none => simp [Int.min_comm]
+    | some z => simp only [Option.some.injEq]; omega
+  | trans _ _ ih1 ih2 => exact ih1.trans ih2
+
+theorem nanSum_append (a b : List Num) : nanSum (a ++ b) = nanSum a + nanSum b := by
+  induction a with
+  | nil => simp [nanSum]
+  | cons x r ih => cases x <;> simp [nanSum, ih]; omega
+
+theorem nanCount_append (a b : List Num) : nanCount (a ++ b) = nanCount a + nanCount b := by
+  induction a with
+  | nil => simp [nanCount]
+  | cons x r ih => cases x <;> simp [nanCount, ih]; omega
+
+
 end TdVerif.C09
